@@ -140,8 +140,8 @@ func (s *scanner) Length() (uint, error) {
 		}
 
 		length = uint(lex.End()) + 1
-		if lex.End() == s.dataSize {
-			length--
+		if lex.End() >= s.dataSize {
+			length = uint(s.dataSize)
 		}
 	}
 	for ; length > 0; length-- {
